@@ -1,3 +1,4 @@
+import Proofs.Prune
 import Proofs.Settle
 import Proofs.Rules
 import Proofs.MatchSound
